@@ -93,6 +93,8 @@ def generate(job):
         k = rc.weighted([("float_m", 3), ("float_g", 2), ("float_mg", 2), ("var_equal", 3), ("var_range", 3), ("fix_var", 2), ("gauss", 1)])
         cons.append({"k": k, "i": rc.randrange(100), "j": rc.randrange(100), "side": rc.choice(["two", "two", "lower", "upper"]), "w": round(rc.uniform(0.05, 0.4), 3), "v": round(rc.uniform(0.3, 1.5), 3)})
     spec["constraints"] = cons
+    if any(c["k"] == "var_equal" for c in cons) and not slow:
+        spec["card"] = cards.make_card(rs.child("model3"), "S3", n_res=3)  # two free magnitudes to tie
     ops = []
     if slow:
         ops.append({"k": "fit", "method": job["method"], "maxiter": 3, "grad_scale": 1.0})
@@ -119,11 +121,12 @@ def generate(job):
 # -------------------------------------------------------------------------------- execution
 
 
-def apply_constraints(card, cons, names, log):
+def apply_constraints(card, cons, names, log, free=None):
     """returns the card with a constrains section; names: parameter names of the unconstrained model"""
     card = copy.deepcopy(card)
     res = sorted(n for n in card["particle"] if n.startswith("R_"))
     mags = sorted(n for n in names if n.endswith("_total_0r"))
+    free_mags = [n for n in mags if free is None or n in free]
     gls = sorted(n for n in names if "_g_ls_" in n and n.endswith("r"))
     constr = {}
     used = set()
@@ -154,7 +157,8 @@ def apply_constraints(card, cons, names, log):
             if prm:
                 p["params"] = prm
         elif k == "var_equal" and len(mags) >= 2:
-            a, b = mags[c["i"] % len(mags)], mags[c["j"] % len(mags)]
+            pool = free_mags if len(free_mags) >= 2 else mags  # prefer two free magnitudes (a tie with the fixed one fixes both)
+            a, b = pool[c["i"] % len(pool)], pool[(c["i"] + 1 + c["j"] % (len(pool) - 1)) % len(pool)]
             if a != b and ("tie", a) not in used and ("tie", b) not in used:
                 used.add(("tie", a))
                 used.add(("tie", b))
@@ -193,7 +197,7 @@ class Session:
         self.np, self.spec, self.log, self.scratch = np, spec, log, scratch
         base = cards.build(spec["card"])
         names = list(base.get_params().keys())
-        self.card, self.info = apply_constraints(spec["card"], spec["constraints"], names, log)
+        self.card, self.info = apply_constraints(spec["card"], spec["constraints"], names, log, free=set(base.get_amplitude().vm.trainable_vars))
         log.ev("card", constr=self.card.get("constrains"), floats={k: (v.get("float"), v.get("params")) for k, v in self.card["particle"].items() if k.startswith("R_")})
         self.config = self.build()
         amp = self.config.get_amplitude()
@@ -203,11 +207,21 @@ class Session:
             self.phsp = self.config.generate_phsp(spec["n_phsp"])
             self.data = self.config.generate_toy(spec["n_data"], max_N=400)
         cards.randomize_params(amp, Stream(spec["start_seed"], "start"), 0.8, p_neg=0.3)
+        self.negate_ties(Stream(spec["start_seed"], "neg"))
         self.nfits = 0
         self.changing = 0
 
     def build(self):
         return cards.build(self.card)
+
+    def negate_ties(self, rs):
+        """directed start points: a shared (tied) magnitude starts negative in most sessions - a legal point
+        (phase shifted by pi) that post-fit standardisation must treat consistently for all tied names"""
+        amp = self.config.get_amplitude()
+        for a, b in self.info["ties"]:
+            if rs.chance(0.6):
+                v = float(amp.get_params()[a])
+                amp.set_params({a: -abs(v) - 0.2})
 
     def my_nll(self, config):
         fcn = config.get_fcn([[self.data], [self.phsp], None, None], batch=self.spec["batch"])
@@ -225,6 +239,7 @@ class Session:
         log.count("op." + k + ("." + op["method"] if k == "fit" else ""))
         if k == "set_params":
             cards.randomize_params(amp, Stream(op["seed"], "move"), op.get("scale", 1.0), p_neg=0.3)
+            self.negate_ties(Stream(op["seed"], "neg"))
             self.changing += 1
             return
         if k == "reinit":
